@@ -1101,7 +1101,9 @@ func genFunctionWrapper(n *node) func(*frame) reflect.Value {
 
 		return reflect.MakeFunc(funcType, func(in []reflect.Value) []reflect.Value {
 			// Allocate and init local frame. All values to be settable and addressable.
-			fr := newFrame(pf, len(def.types), f.runid())
+			// The run id is the one of the global frame, which follows evaluations:
+			// f may be the frame of a function call terminated long ago.
+			fr := newFrame(pf, len(def.types), f.root.runid())
 			d := fr.data
 			for i, t := range def.types {
 				d[i] = reflect.New(t).Elem()
